@@ -131,8 +131,10 @@ def histories(depth):
 
 def run_child(job):
     """job = (mode, hashseed, ops) -> parsed child result (runs in a pool worker; spawns a fresh interpreter)"""
-    mode, seed, ops = job
+    mode, seed, ops = job[:3]
     env = dict(os.environ, PYTHONHASHSEED=str(seed), TZ="UTC", LC_ALL="C.UTF-8", PYTHONDONTWRITEBYTECODE="1")
+    if len(job) > 3:
+        env.update(job[3])   # another process environment (time zone, locale)
     env["PYTHONPATH"] = VERIF
     p = subprocess.run([sys.executable, "-m", "mc.props.c12_child", mode, json.dumps(ops)], capture_output=True, text=True, env=env, cwd=VERIF,
                        timeout=600)
@@ -175,6 +177,24 @@ def run(ctx):
             st.by_clause["repeat"] = st.by_clause.get("repeat", 0) + 1
             ctx.violation("repeat", f"probe{i}-seed{s}", {"detail": f"probe {i}: second parse in the same process gives {r['final'][str(i)]}, first {baseline[i]}", "ops": ops,
                                                          "seed": s, "tjp": probes()[i]})
+    # the same probes in fresh processes whose ENVIRONMENT differs: local time zone (east and west of UTC, with DST), plain C locale
+    envs = {"TZ=Asia/Tokyo": {"TZ": "Asia/Tokyo"}, "TZ=America/Los_Angeles": {"TZ": "America/Los_Angeles"}, "TZ=Europe/Berlin": {"TZ": "Europe/Berlin"},
+            "LC_ALL=C": {"LC_ALL": "C", "LANG": "C", "PYTHONCOERCECLOCALE": "0", "PYTHONUTF8": "0"}}
+    env_jobs = [("rebuilt", 0, [["parse", i]], e) for e in envs.values() for i in range(len(allp))]
+    env_names = [n for n in envs for _i in range(len(allp))]
+    for (mode, s, ops, _e), en, r in zip(env_jobs, env_names, pool.map("mc.props.c12:run_child", env_jobs, timeout=900, chunk=1)):
+        st.evaluations += 1
+        if "__child_failed__" in r:
+            print("HARNESS-ERROR: child failed:", r["__child_failed__"])
+            return 3
+        i = ops[0][1]
+        sig = r["steps"][0][2]
+        st.transitions += 1
+        st.nontrivial.add(("env", en, i))
+        if sig != baseline[i]:
+            st.by_clause["environment"] = st.by_clause.get("environment", 0) + 1
+            ctx.violation("environment", f"probe{i}-{en}", {"detail": f"probe {i}: observation in a process with {en} ({sig}) differs from the ordinary one ({baseline[i]})",
+                                                            "ops": ops, "env": en, "tjp": allp[i]})
     # histories
     hs = list(histories(depth))
     jobs = [("rebuilt", 0, h) for h in hs]
